@@ -27,7 +27,7 @@ ASSUMPTIONS = [
 ]
 BOUNDS = {'quick': dict(history_length='0..3', window='None,0..L+1', trees='<=3 leaves, depth<=2', population='<=3 x 2'),
           'thorough': dict(history_length='0..5', window='None,0..L+1', trees='<=4 leaves, depth<=3', population='<=4 x 3')}
-BUDGET = {'quick': 400, 'thorough': 3000}
+BUDGET = {'quick': 1800, 'thorough': 3000}
 
 INF = float('inf')
 
